@@ -25,7 +25,8 @@ func init() {
 			{ID: "C09.R6", Floor: 4, Doc: "routingKeyInfo pairs index i with the i-th partition-key column and its type", Run: c09r6},
 			{ID: "C09.R7", Floor: 1, Doc: "Query.routingKey holds only a key the caller supplied: a key computed from the bound values is never stored there", Run: c09r7},
 		},
-		Variants: []Variant{{Name: "appengine", GOARCH: "amd64", Tags: "appengine"}},
+		Variants:     []Variant{{Name: "appengine", GOARCH: "amd64", Tags: "appengine"}},
+		SkipVariants: map[string]string{"linux/386": "the term interpreter compares the hash with reference terms over a 64-bit int; with a 32-bit int every length expression carries a sign extension that the comparison would need interval reasoning to remove (the block arithmetic itself is on 64-bit words on every target)"},
 	})
 }
 
@@ -1248,11 +1249,11 @@ func c09r6ByRole(p *Program, r *Report, top *FuncInfo) bool {
 		return false
 	}
 	type verdict struct {
-		node                         ast.Node
-		okT, okI                     bool
-		inner                        ast.Node
-		okPair, okFirst, okMissing   bool
-		haveV4, haveMD               bool
+		node                       ast.Node
+		okT, okI                   bool
+		inner                      ast.Node
+		okPair, okFirst, okMissing bool
+		haveV4, haveMD             bool
 	}
 	var v verdict
 	for _, u := range p.unitsOf(top) {
